@@ -9,6 +9,7 @@ from typing import Dict
 import numpy as np
 import requests
 
+import neuroglancer_scripts.accessor
 import neuroglancer_scripts.http_accessor
 from neuroglancer_scripts.sharded_base import (
     CMCReadWrite,
@@ -129,4 +130,11 @@ class ShardedHttpAccessor(neuroglancer_scripts.http_accessor.HttpAccessor,
                                                           key,
                                                           shard_spec,
                                                           shard_volume_spec)
-        return self.shard_scale_dict[key].fetch_chunk(chunk_coords)
+        try:
+            return self.shard_scale_dict[key].fetch_chunk(chunk_coords)
+        except (AssertionError, IndexError) as exc:
+            # The lower layers signal a missing shard file, minishard or chunk
+            # with assertions
+            raise neuroglancer_scripts.accessor.DataAccessError(
+                f"Cannot find chunk {chunk_coords} of scale {key} in "
+                f"{self.base_url}") from exc
